@@ -57,7 +57,8 @@ func termLabels(ev, i int, r *rand.Rand, seq *int) []label {
 	case tHandlerErr:
 		return []label{lRF(i, rkHandlerErr)}
 	case tHandlerPanic:
-		return []label{lRF(i, rkPanic)}
+		// any of the ways a handler can unwind the receive loop: panic with a string, nil, an error, a user type; Goexit
+		return []label{lRF(i, []int{rkPanic, rkPanicNil, rkPanicErr, rkPanicCustom, rkGoexit}[r.Intn(5)])}
 	case tWriteErr:
 		return []label{lWF(i, wkErr), lSend(i, payload(r, seq))}
 	case tWriteTimeout:
@@ -128,6 +129,17 @@ func generate(e *vh.Env) []scenario {
 					ph = append(ph, []label{lb(aPeerByte, 0)}, []label{lb(aStartAgain, 0)}, []label{lb(aPeerByte, 0)}, []label{lb(aStartAgain, 0)})
 				}
 				add("one/"+termNames[ev], -1, ph...)
+			}
+		}
+	}
+	// 1b. every way the read handler can unwind the receive loop, each one deterministically on both transports
+	for tr := 0; tr < 2; tr++ {
+		for _, k := range []int{rkPanic, rkPanicNil, rkPanicErr, rkPanicCustom, rkGoexit} {
+			for _, n := range []int{0, 1 + r.Intn(4)} {
+				ph := [][]label{{lStartL(0, tr, true)}, sends(0, n, r, &seq), {lRF(0, k)}}
+				ph = append(ph, after()...)
+				ph = append(ph, []label{lb(aPeerByte, 0)}, []label{lb(aStartAgain, 0)})
+				add("handler-end/"+rkNames[k], -1, ph...)
 			}
 		}
 	}
@@ -429,7 +441,7 @@ func walk(r *rand.Rand, cfg walkCfg) func(stM, int) []label {
 			case c < 13:
 				// peer-written command: alone in its phase on TCP, and never followed by PeerClose in the same burst
 				if s.peerOpen && (s.tr == trPipe || burst == 1) {
-					cand = []label{lRF(i, rkHandlerErr+r.Intn(2))}
+					cand = []label{lRF(i, []int{rkHandlerErr, rkPanic, rkPanicNil, rkPanicErr, rkPanicCustom, rkGoexit}[r.Intn(6)])}
 					peerCmdUsed[i] = true
 				}
 			case c < 15:
